@@ -353,7 +353,48 @@ def coq_build(timeout=3000) -> tuple[bool, str]:
         lock.close()
 
 
-def proof_step(prop: str) -> dict:
+def coqchk_step(prop: str) -> dict:
+    """Thorough tier: coqchk (the independent checker) over props/<prop>.vo and everything it depends on, with -o
+    (axioms / type-in-type / unsafe fixpoints / assumed positivity it finds).  Cached by the content of the sources."""
+    h = hashlib.sha256()
+    for f in sorted(list((COQ / "theories").glob("*.v")) + [COQ / "props" / f"{prop}.v"]):
+        h.update(f.name.encode())
+        h.update(f.read_bytes())
+    key = h.hexdigest()[:24]
+    cache = VERIF / ".buildinfo" / f"coqchk-{prop}.json"
+    try:
+        c = json.loads(cache.read_text())
+        if c.get("key") == key:
+            return dict(c, cached=True)
+    except Exception:  # noqa: BLE001
+        pass
+    t0 = time.time()
+    try:
+        r = subprocess.run(["coqchk", "-silent", "-o", "-Q", "theories", "Rbacx", "-Q", "props", "RbacxProps",
+                            f"RbacxProps.{prop}"], cwd=COQ, capture_output=True, text=True, timeout=3000)
+        out = (r.stdout + r.stderr)
+        rc = r.returncode
+    except subprocess.TimeoutExpired:
+        out, rc = "coqchk timed out", 124
+    rep = {}
+    for label in ("Axioms", "Constants/Inductives relying on type-in-type", "Constants/Inductives relying on unsafe (co)fixpoints",
+                  "Inductives whose positivity is assumed"):
+        m = re.search(r"\* " + re.escape(label) + r":(.*?)(?=\n\s*\n|\Z)", out, re.S)
+        rep[label] = re.sub(r"\s+", " ", m.group(1)).strip() if m else "?"
+    res = {"key": key, "rc": rc, "report": rep, "wall_s": round(time.time() - t0, 1),
+           "ok": rc == 0 and all(v == "<none>" for k, v in rep.items() if k != "Axioms"),
+           "cmd": f"coqchk -silent -o -Q theories Rbacx -Q props RbacxProps RbacxProps.{prop}"}
+    if rc != 0:
+        res["tail"] = out[-800:]
+    try:
+        cache.parent.mkdir(exist_ok=True)
+        cache.write_text(json.dumps(res))
+    except Exception:  # noqa: BLE001
+        pass
+    return res
+
+
+def proof_step(prop: str, tier: str = "quick") -> dict:
     """Re-check props/<prop>.v on its own and collect theorems + assumptions."""
     t0 = time.time()
     info: dict = {"file": f"coq/props/{prop}.v", "theorems": [], "assumptions": {}, "ok": False}
@@ -394,6 +435,12 @@ def proof_step(prop: str) -> dict:
     info["examples"] = exs
     info["ok"] = True
     info["missing_print_assumptions"] = [t for t in thms if t not in pa_names]
+    if tier == "thorough":
+        ck = coqchk_step(prop)
+        info["coqchk"] = ck
+        if not ck.get("ok"):
+            info["ok"] = False
+            info["error"] = "coqchk (independent checker) did not accept the property file's closure: " + json.dumps(ck)[:800]
     info["wall_s"] = round(time.time() - t0, 2)
     return info
 
@@ -587,6 +634,7 @@ class Check:
                 "trusted_base": tb,
                 "theorems": thms,
                 "print_assumptions": assum,
+                **({"coqchk": proof["coqchk"]} if proof.get("coqchk") else {}),
                 "evaluations": self.evaluations,
                 "distinct_nontrivial": len(self.nontrivial),
                 "rule": self.rule,
